@@ -42,6 +42,19 @@ theorem andThen_keeps {ko : Bool} {r : Out × Slot × St} {post : St → St} {s 
   | err l => simp [hp]
   | panic => simp [hp]
 
+theorem scopeThen_keeps {ko : Bool} {r : Out × Slot × St} {st : St} {cont : Bool} {s : Slot}
+    {k : Slot → St → Out × Slot × St} (hk : Keeps ko k) :
+    restoreVal (scopeThen r st cont s k).2.1 (scopeThen r st cont s k).2.2.fallback = restoreVal s st.fallback ∧
+      (ko = false → (scopeThen r st cont s k).2.1 = s) := by
+  unfold scopeThen
+  cases r.1 with
+  | ok => simpa using hk s { r.2.2 with anchors := st.anchors, fallback := st.fallback }
+  | err l =>
+    cases cont with
+    | false => simp
+    | true => simpa using hk s { r.2.2 with anchors := st.anchors, fallback := st.fallback, ptrs := st.ptrs }
+  | panic => simp
+
 theorem exec_keeps (p : Prog) : ∀ ko, tight ko p = true → Keeps ko (exec p) := by
   induction p with
   | done => intro ko _ s st; simp [exec]
@@ -49,23 +62,11 @@ theorem exec_keeps (p : Prog) : ∀ ko, tight ko p = true → Keeps ko (exec p) 
     intro ko h s st
     simp only [tight] at h
     simpa [exec] using ih ko h s _
-  | scope cont body k ihb ihk =>
+  | scope cont body k _ ihk =>
     intro ko h s st
-    simp only [tight, Bool.and_eq_true] at h
-    have hb := (ihb false h.1).body { st with anchors := .empty }
-    have hk := ihk ko h.2
+    simp only [tight] at h
     simp only [exec]
-    cases hr : (exec body none { st with anchors := .empty }).1 with
-    | ok =>
-      have := hk s { (exec body none { st with anchors := .empty }).2.2 with anchors := .empty }
-      simpa [hb] using this
-    | err l =>
-      cases cont with
-      | false => simp [hb]
-      | true =>
-        have := hk s { (exec body none { st with anchors := .empty }).2.2 with anchors := .empty, ptrs := st.ptrs }
-        simpa [hb] using this
-    | panic => simp [hb]
+    exact scopeThen_keeps (ihk ko h)
   | ctx kind anchor body k ihb ihk =>
     intro ko h s st
     simp only [tight, Bool.and_eq_true] at h
@@ -158,252 +159,241 @@ theorem exec_keeps (p : Prog) : ∀ ko, tight ko p = true → Keeps ko (exec p) 
     · exact ih ko h s st
     · simp
 
-/-! ## Independence of the entry value of the fallback cell (`covered` programs) -/
+/-! ## Entry points: every document inside `with_document_scope` (save / restore of both thread-locals) -/
 
-/-- forget the slot and the cell -/
-def erase (r : Out × Slot × St) : Out × St := (r.1, { r.2.2 with fallback := none })
+/-- replace the thread-local part of a state -/
+def St.withTls (st : St) (a : Anchors) (f : Option Loc) : St := { st with anchors := a, fallback := f }
 
-theorem erase_eq_iff (a b : Out × Slot × St) :
-    erase a = erase b ↔ a.1 = b.1 ∧ b.2.2 = { a.2.2 with fallback := b.2.2.fallback } := by
-  obtain ⟨ao, as, ast⟩ := a
-  obtain ⟨bo, bs, bst⟩ := b
-  cases ast; cases bst
-  simp only [erase, Prod.mk.injEq, St.mk.injEq]
-  constructor
-  · rintro ⟨h1, h2, -, h3, h4, h5⟩; exact ⟨h1, h2.symm, trivial, h3.symm, h4.symm, h5.symm⟩
-  · rintro ⟨h1, h2, -, h3, h4, h5⟩; exact ⟨h1, h2.symm, trivial, h3.symm, h4.symm, h5.symm⟩
-
-theorem dropMa_false_eq (s : Slot) (st : St) :
-    dropMa false s st = { st with fallback := restoreVal s st.fallback } := by
-  cases s <;> simp [dropMa]
-
-/-- the two runs (entry cell `st.fallback` resp. `f₂`, any slots) agree on everything but slot and cell -/
-def Cov (c : Bool) (k : Slot → St → Out × Slot × St) : Prop :=
-  ∀ s₁ s₂ st f₂, (c = true → f₂ = st.fallback) → erase (k s₁ st) = erase (k s₂ { st with fallback := f₂ })
-
-theorem Cov.comp {c k} (h : Cov c k) (g : St → St)
-    (hg : ∀ st f, g { st with fallback := f } = { g st with fallback := f })
-    (hf : ∀ st, (g st).fallback = st.fallback) : Cov c (fun s st => k s (g st)) := by
-  intro s₁ s₂ st f₂ hc
-  show erase (k s₁ (g st)) = erase (k s₂ (g { st with fallback := f₂ }))
-  have e := h s₁ s₂ (g st) f₂ (by rw [hf]; exact hc)
-  rw [← hg st f₂] at e
-  exact e
-
-theorem andThen_cov {c : Bool} {r₁ r₂ : Out × Slot × St} {post₁ post₂ : St → St} {s₁ s₂ : Slot}
-    {k : Slot → St → Out × Slot × St} {fb₂ : Option Loc}
-    (ho : r₂.1 = r₁.1) (hst : post₂ r₂.2.2 = { post₁ r₁.2.2 with fallback := fb₂ })
-    (hfb : c = true → fb₂ = (post₁ r₁.2.2).fallback) (hk : Cov c k) :
-    erase (andThen r₁ post₁ s₁ k) = erase (andThen r₂ post₂ s₂ k) := by
-  unfold andThen
-  rw [ho, hst]
-  cases r₁.1 with
-  | ok => exact hk _ _ _ _ hfb
-  | err l => simp [erase]
-  | panic => simp [erase]
-
-/-- a body (run with a fresh slot) of a tight program: outcome and everything but the cell agree, and each
-run restores its own entry value of the cell -/
-theorem body_cov {body : Prog} {c : Bool} (ht : tight false body = true) (ih : Cov c (exec body))
-    (st : St) (f₂ : Option Loc) (hc : c = true → f₂ = st.fallback) :
-    (exec body none { st with fallback := f₂ }).1 = (exec body none st).1 ∧
-    (exec body none { st with fallback := f₂ }).2.2 = { (exec body none st).2.2 with fallback := f₂ } ∧
-    (exec body none st).2.2.fallback = st.fallback := by
-  have e := (erase_eq_iff _ _).1 (ih none none st f₂ hc)
-  have k1 := (exec_keeps body false ht).body st
-  have k2 := (exec_keeps body false ht).body { st with fallback := f₂ }
-  refine ⟨e.1.symm, ?_, k1⟩
-  rw [e.2, k2]
-
-theorem exec_covered (p : Prog) : ∀ ko c, tight ko p = true → covered c p = true → Cov c (exec p) := by
+/-- A top-level call neither reads nor (in the end) changes the thread-locals it is entered with: run from
+ANY entry value `(a, f)` it does what it does from `st`, and hands `(a, f)` back. -/
+theorem exec_entry_tls (p : Prog) : isEntry p = true → ∀ (s : Slot) (st : St) (a : Anchors) (f : Option Loc),
+    exec p s (st.withTls a f) = ((exec p s st).1, (exec p s st).2.1, (exec p s st).2.2.withTls a f) := by
   induction p with
-  | done => intro ko c _ _ s₁ s₂ st f₂ _; simp [exec, erase]
-  | probe k ih =>
-    intro ko c ht hc s₁ s₂ st f₂ hf
-    simp only [tight] at ht
-    simp only [covered, Bool.and_eq_true] at hc
-    have hf' := hf hc.1
-    subst hf'
-    simpa [exec] using ih ko c ht hc.2 s₁ s₂ _ _ (fun _ => rfl)
-  | scope cont body k ihb ihk =>
-    intro ko c ht hc s₁ s₂ st f₂ hf
-    simp only [tight, Bool.and_eq_true] at ht
-    simp only [covered, Bool.and_eq_true] at hc
-    obtain ⟨h1, h2, h3⟩ := body_cov ht.1 (ihb false c ht.1 hc.1) { st with anchors := .empty } f₂ hf
-    have hk := ihk ko c ht.2 hc.2
+  | done => intro _ s st a f; simp [exec, St.withTls]
+  | err loc => intro _ s st a f; simp [exec, St.withTls]
+  | scope cont body k _ ihk =>
+    intro h s st a f
+    simp only [isEntry] at h
     simp only [exec]
-    have e : ({ st with fallback := f₂ } : St) = { st with fallback := f₂ } := rfl
-    change erase _ = erase (match (exec body none { ({ st with anchors := .empty } : St) with fallback := f₂ }).1 with
-      | .ok => _ | .err l => _ | .panic => _)
-    rw [h1]
-    cases hr : (exec body none { st with anchors := .empty }).1 with
+    show scopeThen (exec body none { st with anchors := .empty, fallback := none }) (st.withTls a f) cont s (exec k) = _
+    unfold scopeThen
+    cases (exec body none { st with anchors := .empty, fallback := none }).1 with
     | ok =>
-      simp only
-      have := hk s₁ s₂ { (exec body none { st with anchors := .empty }).2.2 with anchors := .empty } f₂
-        (by simpa [h3] using hf)
-      simpa [h2] using this
+      exact ihk h s { (exec body none { st with anchors := .empty, fallback := none }).2.2 with
+        anchors := st.anchors, fallback := st.fallback } a f
     | err l =>
       cases cont with
-      | false => simp [erase, h2]
+      | false => rfl
       | true =>
-        simp only [if_true]
-        have := hk s₁ s₂ { (exec body none { st with anchors := .empty }).2.2 with anchors := .empty, ptrs := st.ptrs } f₂
-          (by simpa [h3] using hf)
-        simpa [h2] using this
-    | panic => simp [erase, h2]
+        exact ihk h s { (exec body none { st with anchors := .empty, fallback := none }).2.2 with
+          anchors := st.anchors, fallback := st.fallback, ptrs := st.ptrs } a f
+    | panic => rfl
+  | probe | ctx | strong | weak | guard | ma | key | serr | panic | nest | recAlias => intro h; simp [isEntry] at h
+
+/-- … and from `st` itself it ends with the thread-locals of `st` -/
+theorem exec_entry_final (p : Prog) : isEntry p = true → ∀ (s : Slot) (st : St),
+    (exec p s st).2.2.anchors = st.anchors ∧ (exec p s st).2.2.fallback = st.fallback := by
+  induction p with
+  | done => intro _ s st; simp [exec]
+  | err loc => intro _ s st; simp [exec]
+  | scope cont body k _ ihk =>
+    intro h s st
+    simp only [isEntry] at h
+    simp only [exec]
+    unfold scopeThen
+    cases (exec body none { st with anchors := .empty, fallback := none }).1 with
+    | ok => simpa using ihk h s { (exec body none { st with anchors := .empty, fallback := none }).2.2 with
+        anchors := st.anchors, fallback := st.fallback }
+    | err l =>
+      cases cont with
+      | false => simp
+      | true => simpa using ihk h s { (exec body none { st with anchors := .empty, fallback := none }).2.2 with
+          anchors := st.anchors, fallback := st.fallback, ptrs := st.ptrs }
+    | panic => simp
+  | probe | ctx | strong | weak | guard | ma | key | serr | panic | nest | recAlias => intro h; simp [isEntry] at h
+
+theorem runCall_restores (p : Prog) (he : isEntry p = true) (t : Tls) : (runCall p t).2 = t := by
+  have h := exec_entry_final p he none { anchors := t.anchors, fallback := t.fallback }
+  cases t
+  simp only [runCall, Tls.mk.injEq]
+  exact h
+
+theorem runCall_result_indep (p : Prog) (he : isEntry p = true) (t : Tls) :
+    (runCall p t).1 = (runCall p Tls.init).1 := by
+  have h := exec_entry_tls p he none ({} : St) t.anchors t.fallback
+  simp only [runCall, Tls.init]
+  rw [show ({ anchors := t.anchors, fallback := t.fallback } : St) = St.withTls {} t.anchors t.fallback from rfl, h]
+  rfl
+
+/-! ## The trace is write-only -/
+
+def St.pre (pre : List Item) (st : St) : St := { st with trace := pre ++ st.trace }
+
+def addPre (pre : List Item) (r : Out × Slot × St) : Out × Slot × St := (r.1, r.2.1, r.2.2.pre pre)
+
+/-- a computation only appends to the trace -/
+def TP (k : Slot → St → Out × Slot × St) : Prop := ∀ pre s st, k s (st.pre pre) = addPre pre (k s st)
+
+theorem andThen_tp {pre : List Item} {r : Out × Slot × St} {post post' : St → St} {s : Slot}
+    {k : Slot → St → Out × Slot × St} (hp : post' (r.2.2.pre pre) = (post r.2.2).pre pre) (hk : TP k) :
+    andThen (addPre pre r) post' s k = addPre pre (andThen r post s k) := by
+  unfold andThen
+  simp only [addPre, hp]
+  cases r.1 with
+  | ok => exact hk pre s _
+  | err l => rfl
+  | panic => rfl
+
+theorem scopeThen_tp {pre : List Item} {r : Out × Slot × St} {st : St} {cont : Bool} {s : Slot}
+    {k : Slot → St → Out × Slot × St} (hk : TP k) :
+    scopeThen (addPre pre r) (st.pre pre) cont s k = addPre pre (scopeThen r st cont s k) := by
+  obtain ⟨o, sl, rs⟩ := r
+  cases o with
+  | ok => exact hk pre s { rs with anchors := st.anchors, fallback := st.fallback }
+  | err l =>
+    cases cont with
+    | false => rfl
+    | true => exact hk pre s { rs with anchors := st.anchors, fallback := st.fallback, ptrs := st.ptrs }
+  | panic => rfl
+
+theorem TP.comp {k} (h : TP k) (g : St → St) (hg : ∀ pre st, g (st.pre pre) = (g st).pre pre) :
+    TP (fun s st => k s (g st)) := by
+  intro pre s st
+  show k s (g (st.pre pre)) = addPre pre (k s (g st))
+  rw [hg]
+  exact h pre s (g st)
+
+theorem exec_tp (p : Prog) : TP (exec p) := by
+  induction p with
+  | done => intro pre s st; rfl
+  | probe k ih =>
+    intro pre s st
+    have := ih pre s { st with trace := st.trace ++ [.obs st.anchors st.fallback] }
+    simpa [exec, St.pre, List.append_assoc] using this
+  | scope cont body k ihb ihk =>
+    intro pre s st
+    have hb := ihb pre none { st with anchors := .empty, fallback := none }
+    simp only [exec]
+    change scopeThen (exec body none (St.pre pre { st with anchors := .empty, fallback := none })) (st.pre pre) cont s (exec k) = _
+    rw [hb]
+    exact scopeThen_tp ihk
   | ctx kind anchor body k ihb ihk =>
-    intro ko c ht hc s₁ s₂ st f₂ hf
-    simp only [tight, Bool.and_eq_true] at ht
-    simp only [covered, Bool.and_eq_true] at hc
-    have hk := ihk ko c ht.2 hc.2
+    intro pre s st
     cases anchor with
     | none =>
-      obtain ⟨h1, h2, h3⟩ := body_cov ht.1 (ihb false c ht.1 hc.1) st f₂ hf
       simp only [exec]
-      exact andThen_cov h1 (by simpa using h2) (by simpa [h3] using hf) hk
+      rw [ihb pre none st]
+      exact andThen_tp rfl ihk
     | some id =>
-      obtain ⟨h1, h2, h3⟩ := body_cov ht.1 (ihb false c ht.1 hc.1) { st with anchors := st.anchors.push (kind, id) } f₂ hf
       simp only [exec]
-      exact andThen_cov (fb₂ := f₂) h1 (by rw [h2]) (by simpa [h3] using hf) hk
+      have := ihb pre none { st with anchors := st.anchors.push (kind, id) }
+      change andThen (exec body none (St.pre pre { st with anchors := st.anchors.push (kind, id) })) _ s (exec k) = _
+      rw [this]
+      exact andThen_tp rfl ihk
   | strong kind body k ihb ihk =>
-    intro ko c ht hc s₁ s₂ st f₂ hf
-    simp only [tight, Bool.and_eq_true] at ht
-    simp only [covered, Bool.and_eq_true] at hc
-    have hk := ihk ko c ht.2 hc.2
-    have hbody := fun st' hf' => body_cov ht.1 (ihb false c ht.1 hc.1) st' f₂ hf'
+    intro pre s st
     simp only [exec]
-    split
-    · obtain ⟨h1, h2, h3⟩ := hbody st hf
-      exact andThen_cov (fb₂ := f₂) h1 (by rw [h2]) (by simpa [h3] using hf) (hk.comp _ (fun _ _ => rfl) (fun _ => rfl))
-    · split
-      · obtain ⟨h1, h2, h3⟩ := hbody st hf
-        exact andThen_cov (fb₂ := f₂) h1 (by rw [h2]) (by simpa [h3] using hf) (hk.comp _ (fun _ _ => rfl) (fun _ => rfl))
-      · split
-        · simp [erase]
-        · split
-          · obtain ⟨h1, h2, h3⟩ := hbody { st with next := st.next + 1, anchors := st.anchors.put (kind, _) st.next } hf
-            exact andThen_cov (fb₂ := f₂) h1 (by rw [h2]) (by simpa [h3] using hf) (hk.comp _ (fun _ _ => rfl) (fun _ => rfl))
-          · obtain ⟨h1, h2, h3⟩ := hbody st hf
-            exact andThen_cov (fb₂ := f₂) h1 (by rw [h2]) (by simpa [h3] using hf) (hk.comp _ (fun _ _ => rfl) (fun _ => rfl))
+    rw [show (St.pre pre st).anchors = st.anchors from rfl]
+    cases st.anchors.current kind with
+    | none =>
+      dsimp only
+      rw [ihb pre none st]
+      refine andThen_tp rfl (ihk.comp _ ?_)
+      intro _ _; rfl
+    | some id =>
+      dsimp only
+      cases st.anchors.get (kind, id) with
+      | some p =>
+        dsimp only
+        rw [ihb pre none st]
+        refine andThen_tp rfl (ihk.comp _ ?_)
+        intro _ _; rfl
+      | none =>
+        dsimp only
+        cases st.anchors.reentrant (kind, id) with
+        | true => rfl
+        | false =>
+          simp only [Bool.false_eq_true, if_false]
+          cases kind.isRec with
+          | true =>
+            simp only [if_true]
+            have := ihb pre none { st with next := st.next + 1, anchors := st.anchors.put (kind, id) st.next }
+            change andThen (exec body none (St.pre pre { st with next := st.next + 1, anchors := st.anchors.put (kind, id) st.next })) _ s _ = _
+            rw [this]
+            refine andThen_tp rfl (ihk.comp _ ?_)
+            intro _ _; rfl
+          | false =>
+            simp only [Bool.false_eq_true, if_false]
+            rw [ihb pre none st]
+            refine andThen_tp rfl (ihk.comp _ ?_)
+            intro _ _; rfl
   | weak kind body k ihb ihk =>
-    intro ko c ht hc s₁ s₂ st f₂ hf
-    simp only [tight, Bool.and_eq_true] at ht
-    simp only [covered, Bool.and_eq_true] at hc
-    have hk := ihk ko c ht.2 hc.2
+    intro pre s st
     simp only [exec]
-    split
-    · simp [erase]
-    · obtain ⟨h1, h2, h3⟩ := body_cov ht.1 (ihb false c ht.1 hc.1) st f₂ hf
-      refine andThen_cov (fb₂ := f₂) h1 (by rw [h2]) (by simpa [h3] using hf) ?_
-      intro t₁ t₂ st' f' hf'
-      simp only []
-      split
-      · exact hk t₁ t₂ _ f' hf'
-      · simp [erase]
-  | guard loc body k _ ihk =>
-    intro ko c ht hc s₁ s₂ st f₂ hf
-    simp only [tight] at ht
-    simp only [covered] at hc
+    rw [show (St.pre pre st).anchors = st.anchors from rfl]
+    cases st.anchors.current kind with
+    | none => rfl
+    | some id =>
+      dsimp only
+      rw [ihb pre none st]
+      refine andThen_tp rfl ?_
+      intro pre' s' st'
+      dsimp only
+      rw [show (St.pre pre' st').anchors = st'.anchors from rfl]
+      cases st'.anchors.get (kind, id) with
+      | some p => exact ihk pre' s' { st' with ptrs := st'.ptrs ++ [p] }
+      | none => rfl
+  | guard loc body k ihb ihk =>
+    intro pre s st
     simp only [exec]
-    exact andThen_cov (fb₂ := f₂) rfl rfl (by simpa using hf) (ihk ko c ht hc)
+    have := ihb pre none { st with fallback := some loc }
+    change andThen (exec body none (St.pre pre { st with fallback := some loc })) _ s (exec k) = _
+    rw [this]
+    exact andThen_tp rfl ihk
   | ma leak body k ihb ihk =>
-    intro ko c ht hc s₁ s₂ st f₂ hf
-    simp only [tight, Bool.and_eq_true, Bool.not_eq_true'] at ht
-    simp only [covered, Bool.and_eq_true] at hc
-    obtain ⟨⟨hl, htb⟩, htk⟩ := ht
-    subst hl
-    have e := (erase_eq_iff _ _).1 (ihb true c htb hc.1 none none st f₂ hf)
-    have k1 := (exec_keeps body true htb none st).1
-    have k2 := (exec_keeps body true htb none { st with fallback := f₂ }).1
-    simp only [restoreVal_none] at k1 k2
+    intro pre s st
     simp only [exec]
-    have d1 : (dropMa false (exec body none st).2.1 (exec body none st).2.2) =
-        { (exec body none st).2.2 with fallback := st.fallback } := by
-      rw [dropMa_false_eq, k1]
-    have d2 : (dropMa false (exec body none { st with fallback := f₂ }).2.1 (exec body none { st with fallback := f₂ }).2.2) =
-        { (exec body none { st with fallback := f₂ }).2.2 with fallback := f₂ } := by
-      rw [dropMa_false_eq, k2]
-    refine andThen_cov (fb₂ := f₂) e.1.symm ?_ (by rw [d1]; simpa using hf) (ihk ko c htk hc.2)
-    rw [d1, d2, e.2]
+    rw [ihb pre none st]
+    refine andThen_tp ?_ ihk
+    simp only [addPre, dropMa]
+    cases leak with
+    | true => rfl
+    | false => cases (exec body none st).2.1 <;> rfl
   | key loc k ih =>
-    intro ko c ht hc s₁ s₂ st f₂ _
-    simp only [tight, Bool.and_eq_true] at ht
-    simp only [covered] at hc
-    have hk := ih ko true ht.2 hc
-    have key : ∀ t₁ t₂, erase (exec k t₁ { st with fallback := some loc }) = erase (exec k t₂ { st with fallback := some loc }) := by
-      intro t₁ t₂
-      simpa using hk t₁ t₂ { st with fallback := some loc } (some loc) (fun _ => rfl)
-    cases s₁ <;> cases s₂ <;> simp only [exec] <;> exact key _ _
-  | serr =>
-    intro ko c _ hc s₁ s₂ st f₂ hf
-    simp only [covered] at hc
-    have := hf hc
-    subst this
-    simp [exec, erase]
-  | err loc => intro ko c _ _ s₁ s₂ st f₂ _; simp [exec, erase]
-  | panic => intro ko c _ _ s₁ s₂ st f₂ _; simp [exec, erase]
-  | nest body k ihb ihk =>
-    intro ko c ht hc s₁ s₂ st f₂ hf
-    simp only [tight, Bool.and_eq_true] at ht
-    simp only [covered, Bool.and_eq_true] at hc
-    obtain ⟨h1, h2, h3⟩ := body_cov ht.1 (ihb false c ht.1 hc.1) { anchors := st.anchors, fallback := st.fallback } f₂ hf
-    have hk := ihk ko c ht.2 hc.2
+    intro pre s st
+    cases s with
+    | none => simpa [exec, St.pre] using ih pre (some st.fallback) { st with fallback := some loc }
+    | some p => simpa [exec, St.pre] using ih pre (some p) { st with fallback := some loc }
+  | serr => intro pre s st; rfl
+  | err loc => intro pre s st; rfl
+  | panic => intro pre s st; rfl
+  | nest body k _ ihk =>
+    intro pre s st
     simp only [exec]
-    change erase _ = erase (exec k s₂
-      { st with anchors := (exec body none { ({ anchors := st.anchors, fallback := st.fallback } : St) with fallback := f₂ }).2.2.anchors,
-                fallback := (exec body none { ({ anchors := st.anchors, fallback := st.fallback } : St) with fallback := f₂ }).2.2.fallback,
-                trace := st.trace ++ [.nestBegin] ++ (exec body none { ({ anchors := st.anchors, fallback := st.fallback } : St) with fallback := f₂ }).2.2.trace ++
-                  [.nestEnd (exec body none { ({ anchors := st.anchors, fallback := st.fallback } : St) with fallback := f₂ }).1
-                    (exec body none { ({ anchors := st.anchors, fallback := st.fallback } : St) with fallback := f₂ }).2.2.ptrs] })
-    rw [h1, h2]
-    have := hk s₁ s₂
+    have := ihk pre s
       { st with anchors := (exec body none { anchors := st.anchors, fallback := st.fallback }).2.2.anchors,
                 fallback := (exec body none { anchors := st.anchors, fallback := st.fallback }).2.2.fallback,
                 trace := st.trace ++ [.nestBegin] ++ (exec body none { anchors := st.anchors, fallback := st.fallback }).2.2.trace ++
                   [.nestEnd (exec body none { anchors := st.anchors, fallback := st.fallback }).1
-                    (exec body none { anchors := st.anchors, fallback := st.fallback }).2.2.ptrs] } f₂
-      (by simpa [h3] using hf)
-    simpa using this
+                    (exec body none { anchors := st.anchors, fallback := st.fallback }).2.2.ptrs] }
+    simpa [St.pre, List.append_assoc] using this
   | recAlias id loc k ih =>
-    intro ko c ht hc s₁ s₂ st f₂ hf
-    simp only [tight] at ht
-    simp only [covered] at hc
+    intro pre s st
     simp only [exec]
-    split
-    · exact ih ko c ht hc s₁ s₂ st f₂ hf
-    · simp [erase]
+    rw [show (St.pre pre st).anchors = st.anchors from rfl]
+    cases st.anchors.recInProgress id with
+    | true => simpa using ih pre s st
+    | false => rfl
 
-/-! ## Entry points: every document inside `with_document_scope` -/
-
-/-- a call that begins with a document scope does not see the anchor state it is entered with -/
-theorem exec_scope_entry_anchors (cont : Bool) (b k : Prog) (s : Slot) (st : St) (a : Anchors) :
-    exec (.scope cont b k) s { st with anchors := a } = exec (.scope cont b k) s st := by
-  simp only [exec]
-
-theorem entry_final_anchors (p : Prog) : isEntry p = true → ∀ s st, st.anchors = .empty →
-    (exec p s st).2.2.anchors = .empty := by
-  induction p with
-  | done => intro _ s st h; simpa [exec] using h
-  | err loc => intro _ s st h; simpa [exec] using h
-  | scope cont body k _ ihk =>
-    intro h s st _
-    simp only [isEntry] at h
-    simp only [exec]
-    cases (exec body none { st with anchors := .empty }).1 with
-    | ok => exact ihk h _ _ rfl
-    | err l =>
-      cases cont with
-      | false => simp
-      | true => exact ihk h _ _ rfl
-    | panic => simp
-  | probe | ctx | strong | weak | guard | ma | key | serr | panic | nest | recAlias => intro h; simp [isEntry] at h
-
-theorem runCall_clean (p : Prog) (he : isEntry p = true) (ht : tight false p = true) (t : Tls)
-    (ha : t.anchors = .empty) : (runCall p t).2 = t := by
-  have h1 := entry_final_anchors p he none { anchors := t.anchors, fallback := t.fallback } ha
-  have h2 := (exec_keeps p false ht).body { anchors := t.anchors, fallback := t.fallback }
-  cases t
-  simp only [runCall, Tls.mk.injEq]
-  exact ⟨h1.trans ha.symm, h2⟩
+/-- outcome, slot and everything but the trace do not depend on the trace a computation starts with -/
+theorem exec_trace_irrelevant (p : Prog) (s : Slot) (st : St) (tr : List Item) :
+    (exec p s { st with trace := tr }).1 = (exec p s { st with trace := [] }).1 ∧
+    (exec p s { st with trace := tr }).2.2.ptrs = (exec p s { st with trace := [] }).2.2.ptrs ∧
+    (exec p s { st with trace := tr }).2.2.anchors = (exec p s { st with trace := [] }).2.2.anchors ∧
+    (exec p s { st with trace := tr }).2.2.fallback = (exec p s { st with trace := [] }).2.2.fallback := by
+  have := exec_tp p tr s { st with trace := [] }
+  simp only [St.pre, List.append_nil] at this
+  rw [this]
+  exact ⟨rfl, rfl, rfl, rfl⟩
 
 end SaphyrVerif.Tls
